@@ -85,6 +85,8 @@ def bool_expr(fn, prog=None, max_nodes=400):
             return ("leaf", describe_deep(fn, ["c", [last[1].dest[0], []]]) if False else leaf_of_call(last[1]))
         if last[0] == "bin":
             r = last[1]
+            if r[1] in ("BitAnd", "BitOr") and all(o[0] in ("c", "m") and fn.place_ty(o[1]) == "bool" for o in (r[2], r[3])):
+                return ("and" if r[1] == "BitAnd" else "or", cond_expr(fn.origin(r[2])), cond_expr(fn.origin(r[3])))
             return ("leaf", "%s(%s,%s)" % (r[1], describe_deep(fn, r[2]), describe_deep(fn, r[3])))
         if last[0] == "un" and last[1][1] == "Not":
             return ("not", cond_expr(fn.origin(last[1][2])))
